@@ -45,7 +45,7 @@ let run () = iter_lines (fun line ->
       let skip_of (d, _, t) = (match t.inl with Some k -> k | None -> (match m.docskip with Some k -> k | None -> int_of_z default_skip_document_code)) in
       let tcs = List.map (fun ((_, _, t) as x) ->
           { expected = (if t.kind = 'E' then Some (z_of_int t.code) else None); t_skip = z_of_int (skip_of x);
-            per_timeout = (if t.kind = 'T' then Some (n_of_int 400) else None); empty_ok = true }) all in
+            per_timeout = (if t.kind = 'T' || t.kind = 'B' then Some (n_of_int 400) else None); empty_ok = true }) all in
       let script_mode = m.cram || compat in   (* one script per document: Cram files, and every document under --cram-compat *)
       (* the skip code of the one script: 80 for a Cram file; under --cram-compat what the test cases carry (the same on all of them) *)
       let script_skip = (if m.cram then default_skip_document_code else (match all with x :: _ -> z_of_int (skip_of x) | [] -> default_skip_document_code)) in
@@ -60,7 +60,7 @@ let run () = iter_lines (fun line ->
               | 'P' | 'O' | 'w' -> Code Z0 | 'C' | 'E' -> Code (z_of_int t.code) | 'S' -> Code (z_of_int (if m.cram then 80 else skip_of x))
               | 'Q' -> if script_mode then ESkipped else Code (z_of_int (skip_of x))
               | 'G' when cli_unlimited -> Code Z0
-              | 'T' | 'G' -> TimedOut | 'D' -> EDetached | 'K' -> Unknown | 'X' -> if x_is_skip then ESkipped else Code (z_of_int 3) | _ -> failwith "kind") in
+              | 'T' | 'G' | 'B' -> TimedOut | 'D' -> EDetached | 'K' -> Unknown | 'X' -> if x_is_skip then ESkipped else Code (z_of_int 3) | _ -> failwith "kind") in
           { status = st; out_ok = (t.kind <> 'O') }) all elapsed in
       let total = (match cli_timeout with Some 0 -> None | Some t -> Some (n_of_int t) | None ->
                      (match m.total with Some t -> Some (n_of_int t) | None -> Some default_document_timeout_ms)) in
@@ -92,7 +92,7 @@ let run () = iter_lines (fun line ->
     let exp_marks = marks_until plan in
     let has k = List.exists (fun d -> List.exists (fun t -> t.kind = k) d.tests) docs in
     bump (Printf.sprintf "exit:%d" mexit); bump (Printf.sprintf "docs:%d" (List.length mains));
-    List.iter (fun k -> if has k then bump (Printf.sprintf "has:%c" k)) ['P'; 'O'; 'C'; 'E'; 'S'; 'Q'; 'T'; 'G'; 'D'; 'K'; 'X'; 'w'];
+    List.iter (fun k -> if has k then bump (Printf.sprintf "has:%c" k)) ['P'; 'O'; 'C'; 'E'; 'S'; 'Q'; 'T'; 'G'; 'B'; 'D'; 'K'; 'X'; 'w'];
     if pres <> [] then bump "has:prepend"; if apps <> [] then bump "has:append";
     if List.exists (fun d -> d.cram) mains then bump "has:cram";
     note_distinct docs_s (List.length (List.concat_map (fun d -> d.tests) docs) >= 2); sample line;
